@@ -262,6 +262,7 @@ pub fn judge(c: &Case15) -> Vec<(String, String)> {
     };
     let spelled = c.new_spelling.clone().unwrap_or_else(|| new_name.clone());
     // reference: PropertyMigration::perform called directly
+    let mut unmigratable = false;
     let direct = match migration.perform(&legacy_value) {
         Ok(v) => v,
         Err(e) => {
@@ -269,7 +270,16 @@ pub fn judge(c: &Case15) -> Vec<(String, String)> {
                 format!("migrate|unmigratable|{}|{}", tag, vlabel),
                 format!("{}.{} = {} is a value the database allows but the migration rejects it: {}", c.class, c.legacy, vlabel, e),
             ));
-            return out;
+            // with an explicit new value next to it the legacy value does not matter: both writers
+            // must still produce a readable file that carries the explicit value (the read paths,
+            // where the listed finding makes a lone legacy value a hard error, are left out)
+            match (c.explicit_new, values.iter().find_map(|v| migration.perform(&v.1).ok())) {
+                (true, Some(sample)) => {
+                    unmigratable = true;
+                    sample
+                }
+                _ => return out,
+            }
         }
     };
     let explicit = explicit_value(&direct);
@@ -344,7 +354,7 @@ pub fn judge(c: &Case15) -> Vec<(String, String)> {
         paths.push((format!("write-xml/{}", ord), res.unwrap_or_else(|(s, m)| Err(format!("panic at {}: {}", s, m)))));
     }
     // read paths: a foreign file that still carries the legacy name, both encounter orders
-    {
+    if !unmigratable {
         let dom = build_with(true, sibling_in_files);
         let roots = dom.root().children().to_vec();
         let res = crate::evidence::guarded(|| -> Vec<(String, PathResult)> {
